@@ -17,7 +17,7 @@ CONSTANTS Vals, Probes, MaxLen, Mode
 VARIABLE c        \* export: a sorted list;  validate: index of a recorded case
 
 Lists == UNION {[1..n -> Vals] : n \in 0..MaxLen}
-SortedLists == {l \in Lists : IsSorted(l)}
+SortedLists == {l \in Lists : SortedAsc(l)}
 
 Cases == IF Mode = "validate" THEN ndJsonDeserialize(IOEnv.VERIF_IN) ELSE <<>>
 
